@@ -228,6 +228,26 @@ fn edge_cases(ctx: &Ctx, stats: &Stats, r: &Reach, tier: Tier, relabel_targets: 
                     check_tree(ctx, stats, "doubled-child", &t, v, "");
                 }
             }
+            // doubled, but not adjacent: the same single-occurrence child before and after a different sibling
+            let mut interposed = 0;
+            for t in subs.iter() {
+                if t.indices == s.indices || (t.name == ElementName::ShortName && named) {
+                    continue;
+                }
+                if p.find_common_group(&s.indices, &t.indices).content_mode() == ContentMode::Choice {
+                    continue;
+                }
+                let mut c3 = 0;
+                if let (Some(x), Some(m), Some(y)) = (minimal_node(s.name, s.etype, v, &mut c3), minimal_node(t.name, t.etype, v, &mut c3), minimal_node(s.name, s.etype, v, &mut c3)) {
+                    if let Some(tree) = with_children(path, vec![x, m, y], v, false) {
+                        check_tree(ctx, stats, "doubled-child-not-adjacent", &tree, v, "");
+                    }
+                }
+                interposed += 1;
+                if interposed >= 3 {
+                    break;
+                }
+            }
             // attribute defects on the child
             let variants: std::cell::RefCell<Vec<(String, Node)>> = std::cell::RefCell::new(vec![]);
             let mut c = child.clone();
